@@ -104,7 +104,7 @@ void SessionID::from_string(const f8String& from)
 //-------------------------------------------------------------------------------------------------
 Session::Session(const F8MetaCntx& ctx, const SessionID& sid, Persister *persist, Logger *logger, Logger *plogger) :
 _state(States::st_none),
-_ctx(ctx), _connection(), _req_next_send_seq(), _req_next_receive_seq(),
+_ctx(ctx), _connection(), _req_next_send_seq(), _req_next_receive_seq(), _resend_upto(),
 	_sid(sid), _sf(), _persist(persist), _logger(logger), _plogger(plogger),	// initiator
 	_timer(*this, 10), _hb_processor(&Session::heartbeat_service, true),
 	_session_scheduler(&Session::activation_service, true), _schedule()
@@ -131,7 +131,7 @@ _ctx(ctx), _connection(), _req_next_send_seq(), _req_next_receive_seq(),
 //-------------------------------------------------------------------------------------------------
 Session::Session(const F8MetaCntx& ctx, const sender_comp_id& sci, Persister *persist, Logger *logger, Logger *plogger) :
 _state(States::st_none),
-_ctx(ctx), _sci(sci), _connection(), _req_next_send_seq(), _req_next_receive_seq(),
+_ctx(ctx), _sci(sci), _connection(), _req_next_send_seq(), _req_next_receive_seq(), _resend_upto(),
 	_sf(), _persist(persist), _logger(logger), _plogger(plogger),	// acceptor
 	_timer(*this, 10), _hb_processor(&Session::heartbeat_service, true),
 	_session_scheduler(&Session::activation_service, true), _schedule()
@@ -351,6 +351,8 @@ application_call:
 		// not one that was ahead of sequence and not a retransmission of an earlier number
 		if (seqnum == _next_receive_seq || msg->get_msgtype() == Common_MsgType_SEQUENCE_RESET)
 			++_next_receive_seq;
+		if (_state == States::st_resend_request_sent && _next_receive_seq > _resend_upto)
+			do_state_change(States::st_continuous); // everything that was missing has arrived
 		if (retry_plog)
 			plog(from, Logger::Info, 1);
 
@@ -440,9 +442,12 @@ bool Session::sequence_check(const unsigned seqnum, const Message *msg)
 		if (_state == States::st_resend_request_sent)
 		{
 			slout_warn << "Resend request already sent";
+			if (seqnum > _resend_upto)
+				_resend_upto = seqnum;
 		}
-		if (_state == States::st_continuous)
+		else if (_state == States::st_continuous || _state == States::st_test_request_sent)
 		{
+			_resend_upto = seqnum; // recovery is complete when the expected number has passed the highest number seen meanwhile
 			send(generate_resend_request(_next_receive_seq));
 			do_state_change(States::st_resend_request_sent);
 		}
